@@ -44,6 +44,9 @@ def stretches(tier):
     out.append(general([1.05, 0.97, 1.01], (1, 2, 3), 40))
     out.append(general([1.1, 0.92, 1.03], (-2, 1, 1), 75))
     out.append(general([1.001, 0.9995, 1.0002], (1, 1, 0), 20))
+    # elastic strains of a few 1e-6 (what a good diffractometer resolves) and a hydrostatic one: small is not zero
+    out.append(general([1.000003, 0.999998, 1.000001], (2, -1, 3), 35))
+    out.append(np.eye(3) * 1.000004)
     if tier == "thorough":
         out.append(general([1.1, 1.1, 0.9], (3, 1, 2), 15))
         out.append(general([0.9, 0.95, 1.1], (0, 1, 1), 130))
